@@ -52,7 +52,13 @@ def load_all():
 
 
 if __name__ == "__main__":
-    load_all()
-    for n, f in sorted(TRANSLATORS.items()):
+    # run as `python -m harness.translate <name|all>`: use the registry of the imported module, not of __main__
+    from harness import translate as T
+    T.load_all()
+    for n, f in sorted(T.TRANSLATORS.items()):
         if sys.argv[1] in ("all", n):
-            print("translate", n, "->", f())
+            try:
+                r = f()
+                print("translate", n, "ok")
+            except T.TranslateError as e:
+                print("translate", n, "FAILED:", e)
